@@ -953,3 +953,115 @@ def load_obligations(prop, tier):
                                      "dofs == dof(connect[e,n], u) in the same order; for all numbers of selected elements and integration points", timeout=300))
     obs.append(Ob(f"{prop}.gp.canary.integration", ob_load_integration, (3, 2, "constant", True), "P", expect=REFUTED, clause="twice the load must be refuted", timeout=120))
     return obs
+
+
+# ---------------------------------------------------------------------------------------------- measures (C07) and point-wise post-processing (C16)
+
+LAWP = "EasyFEA/Models/Elastic/_laws.py"
+
+
+@_guard
+def ob_measures(dim, canary=False):
+    """_GroupElem.Integrate_e, length / area / volume (per element and total) and center, for all Ne, nPg"""
+    sp = gen.Space(dict(wJ=(NE, NPG), x=(NE, NPG, 3), fx=(NE, NPG)), scalars=("k",))
+    g, NPs, Fe = env(sp, "EasyFEA.FEM._group_elem")
+    mts = []
+
+    def wJ(mt):
+        mts.append(mt)
+        return sp.fe("wJ")
+    me = sx.Mock("self", dim=dim, Get_weightedJacobian_e_pg=wJ, Get_GaussCoordinates_e_pg=lambda mt: sp.fe("x"))
+    f = fn_of(GP, "_GroupElem.Integrate_e", g)
+    w, x = sp.arr("wJ"), sp.arr("x")
+    n = 0
+    got = f(me, lambda X, Y, Z: X * X + 2 * Y - Z, "mass")
+    check(got, gen.einsum("ep,ep->e", w, x[:, :, 0] * x[:, :, 0] + 2 * x[:, :, 1] - x[:, :, 2]), "Integrate_e(f) != sum_p wJ[e,p] f(x_p)", "measure:integrate")
+    got = f(me, lambda X, Y, Z: 1, "rigi")
+    check(got, gen.einsum("ep->e", w) * (2 if canary else 1), "Integrate_e(1) != sum_p wJ[e,p]", "measure:integrate:one")
+    got = f(me, lambda X, Y, Z: sp.sym("k"), "rigi")
+    check(got, gen.einsum("ep->e", w * sp.sym("k")), "Integrate_e(constant) != constant sum_p wJ[e,p]", "measure:integrate:const")
+    n += 3
+    if isinstance(got, GFe):
+        raise Refuted("Integrate_e returns a field", signature="measure:type")
+    # per-element and total measures through the properties of the real class (fget from the AST)
+    name = {1: "length", 2: "area", 3: "volume"}[dim]
+    me2 = sx.Mock("self", dim=dim, Integrate_e=lambda func=None, matrixType=None: gen.einsum("ep->e", w) if func(0, 0, 0) == 1 else (_ for _ in ()).throw(Refuted("the measure integrates something else than 1", signature="measure:integrand")))
+    per = fn_of(GP, f"_GroupElem.{name}_e", g)
+    per = per.fget if isinstance(per, property) else per
+    got_e = per(me2)
+    check(got_e, gen.einsum("ep->e", w), f"{name}_e != sum_p wJ[e,p]", f"measure:{name}_e")
+    tot = fn_of(GP, f"_GroupElem.{name}", g)
+    tot = tot.fget if isinstance(tot, property) else tot
+    me3 = sx.Mock("self", dim=dim, **{f"{name}_e": gen.einsum("ep->e", w)})
+    got_t = sp.lift(tot(me3))
+    check(got_t, gen.einsum("ep->", w), f"{name} != sum_e sum_p wJ[e,p]", f"measure:{name}")
+    for other in ("length", "area", "volume"):
+        if other != name:
+            o = fn_of(GP, f"_GroupElem.{other}", g)
+            o = o.fget if isinstance(o, property) else o
+            if o(sx.Mock("self", dim=dim)) is not None:
+                raise Refuted(f"{other} of a {dim}-dimensional group is not None", signature="measure:other")
+    n += 4
+    cen = fn_of(GP, "_GroupElem.center", g)
+    cen = cen.fget if isinstance(cen, property) else cen
+    got_c = sp.lift(cen(me))
+    size = gen.einsum("ep->", w).data[()]
+    num = gen.einsum("ep,epi->i", w, x)
+    if tuple(got_c.shape) != (3,):
+        raise Refuted(f"center has shape {got_c.shape}", signature="measure:center:shape")
+    for i in range(3):
+        if not (got_c.data[i] == gen.Quot(sp, num.data[i], size)):
+            raise Refuted(f"center[{i}] = {got_c.data[i]!r} is not (sum wJ x_{i}) / (sum wJ)", signature="measure:center")
+    n += 3
+    return Verdict(DISCHARGED, backend=BACKEND + "; quotients of complete integrals kept formal", sub=n)
+
+
+@_guard
+def ob_pointwise_elastic(dim, nPe, hetero, canary=False):
+    """_Elastic.Calc_Epsilon_e_pg == B u_e, Calc_Sigma_e_pg == C eps (homogeneous or heterogeneous C), Calc_Psi_e_pg == 1/2 sigma . eps at the generic (e, p)"""
+    ns = {2: 3, 3: 6}[dim]
+    nd = nPe * dim
+    sp = gen.Space(dict(B=(NE, NPG, ns, nd), ue=(NE, nd), C0=(ns, ns), Cep=(NE, NPG, ns, ns), eps=(NE, NPG, ns), sig=(NE, NPG, ns)))
+    g, NPs, Fe = env(sp, "EasyFEA.Models.Elastic._laws")
+    grp = sx.Mock("groupElem", Get_B_e_pg=lambda mt: sp.fe("B"),
+                  Locates_sol_e=lambda sol, asFeArray=False: (GFe._wrap(sp.arr("ue")[:, None]) if asFeArray else sp.arr("ue")) if sol == "u" else (_ for _ in ()).throw(Unsupported("another solution vector")))
+    n = 0
+    f = fn_of(LAWP, "_Elastic.Calc_Epsilon_e_pg", g)
+    me = sx.Mock("self")
+    got = f(me, "u", grp, "rigi")
+    check(got, gen.einsum("epij,ej->epi", sp.arr("B"), sp.arr("ue")), "Calc_Epsilon_e_pg != B[e,p] u_e", f"pointwise:eps:{dim}")
+    if not isinstance(got, GFe):
+        raise Refuted("Calc_Epsilon_e_pg does not return a field", signature="pointwise:eps:type")
+    n += ns
+    C = sp.arr("Cep") if hetero else sp.arr("C0")
+    me = sx.Mock("self", C=C, isHeterogeneous=hetero)
+    fs = fn_of(LAWP, "_Elastic.Calc_Sigma_e_pg", g)
+    got = fs(me, sp.arr("eps"))
+    want = gen.einsum("epij,epj->epi", sp.arr("Cep"), sp.arr("eps")) if hetero else gen.einsum("ij,epj->epi", sp.arr("C0"), sp.arr("eps"))
+    check(got, want + (want if canary else 0), "Calc_Sigma_e_pg != C[e,p] eps[e,p]", f"pointwise:sig:{dim}:{hetero}")
+    n += ns
+    fp = fn_of(LAWP, "_Elastic.Calc_Psi_e_pg", g)
+    me = sx.Mock("self", C=C, isHeterogeneous=hetero, Calc_Sigma_e_pg=lambda e: GFe._wrap(want))
+    got = fp(me, sp.arr("eps"))
+    check(got, gen.einsum("epi,epi->ep", want, sp.arr("eps")) * F(1, 2), "Calc_Psi_e_pg != 1/2 (C eps) . eps", f"pointwise:psi:{dim}:{hetero}")
+    got = fp(me, sp.arr("eps"), sp.fe("sig"))
+    check(got, gen.einsum("epi,epi->ep", sp.arr("sig"), sp.arr("eps")) * F(1, 2), "Calc_Psi_e_pg(eps, sigma) != 1/2 sigma . eps", f"pointwise:psi:given:{dim}")
+    n += 2
+    return Verdict(DISCHARGED, backend=BACKEND, sub=n)
+
+
+def measure_obligations(prop, tier):
+    return [Ob(f"{prop}.gp.measures.{dim}d", ob_measures, (dim,), "P", tuple(f_(GP, f"_GroupElem.{q}") for q in ("Integrate_e", "length_e", "length", "area_e", "area", "volume_e", "volume", "center")),
+               clause="Integrate_e(f) == sum_p wJ f(x_p); length / area / volume == sum_e sum_p wJ for the group's dimension (None otherwise); center == (sum wJ x) / (sum wJ); for all Ne, nPg", timeout=300)
+            for dim in (1, 2, 3)] + [Ob(f"{prop}.gp.canary.measures", ob_measures, (2, True), "P", expect=REFUTED, clause="twice the measure must be refuted", timeout=120)]
+
+
+def pointwise_obligations(prop, tier):
+    obs = [Ob(f"{prop}.gp.canary.pointwise", ob_pointwise_elastic, (2, 3, False, True), "P", expect=REFUTED, clause="twice the stress must be refuted", timeout=120)]
+    for dim, nPe in shapes(tier, 24):
+        if dim >= 2:
+            for hetero in (False, True):
+                obs.append(Ob(f"{prop}.gp.pointwise.{dim}d.n{nPe}.{'hetero' if hetero else 'homogeneous'}", ob_pointwise_elastic, (dim, nPe, hetero), "P",
+                              tuple(f_(LAWP, f"_Elastic.{q}") for q in ("Calc_Epsilon_e_pg", "Calc_Sigma_e_pg", "Calc_Psi_e_pg")),
+                              clause="strain == B u_e, stress == C strain (C homogeneous or a field), energy density == 1/2 stress . strain at every (e, p), for all Ne, nPg", timeout=300))
+    return obs
